@@ -174,6 +174,9 @@ func (w *World) storeOne(plan Plan) {
 	}
 	w.compare("store-result", resStr(serr), model)
 	if serr != nil {
+		if errClass(serr) == "other" {
+			w.Res.Sample(12, map[string]string{"unexpected-store-error": serr.Error(), "history": w.Name})
+		}
 		w.Res.Hit("store-error:" + errClass(serr))
 		// keep the source in step with the node
 		if err := w.Src.G.Revert(); err != nil {
